@@ -101,6 +101,17 @@ def zinput(prompt: str) -> str:
     return input()
 
 
+def write_text_atomically(path: Path, text: str) -> None:
+    """Replaces the contents of {path} with {text} in a single step.
+
+    The text is written to a temporary file next to {path} which is then
+    renamed over it, so a crash never leaves {path} half-written.
+    """
+    tmp_path = path.with_name(f".{path.name}.tmp")
+    tmp_path.write_text(text)
+    tmp_path.replace(path)
+
+
 def get_all_zfiles(zdir: PathLike) -> Iterator[Path]:
     """Returns all *.zo, *.zot, and *.zoq files."""
     zdir = Path(zdir)
